@@ -32,7 +32,7 @@ ASSUMPTIONS = [
     "buffered routes only use writes the raw stream's documented contract supports (one write of the whole "
     "payload, or chunks that are multiples of 7 with a buffer that is a multiple of 7)",
 ]
-BUDGET = {"quick": 50, "thorough": 420}
+BUDGET = {"quick": 150, "thorough": 420}
 NODE = 2
 
 
@@ -67,6 +67,8 @@ def run_case(case) -> Outcome:
     net, port = hub.attach("client")
     node = canopen.RemoteNode(NODE, build_od([]))
     net.add_node(node)
+    for _ in range(case.get("readd", 0)):
+        net.add_node(node)          # the same node object registered again: still one SDO response per frame
     node.sdo.RESPONSE_TIMEOUT = 0.01
     counter = {"seg": 0, "dropped": 0}
 
@@ -189,7 +191,7 @@ def enum_undisturbed():
                 i += 1
                 route = [(0, []), (0, [7] * 3 + [13, 1, 20]), (1024, []), (7, [7, 14, 7]), (700, [700, 70])][i % 5]
                 yield {"len": n, "salt": i % 13, "blksizes": blks, "crc_req": crc_req, "crc_srv": crc_srv,
-                       "buffering": route[0], "chunks": route[1]}
+                       "buffering": route[0], "chunks": route[1], "readd": (0, 0, 0, 1, 0, 2, 0)[i % 7]}
 
 
 def enum_single_loss():
@@ -224,6 +226,8 @@ def rand_case(draw, max_len):
     else:
         case.update(buffering=7 * draw(st.integers(1, 200)),
                     chunks=[7 * k for k in draw(st.lists(st.integers(1, 30), min_size=1, max_size=8))])
+    if draw(st.integers(0, 5)) == 0:
+        case["readd"] = draw(st.integers(1, 2))
     lossmode = draw(st.sampled_from(["none", "none", "one", "one", "multi"]))
     if lossmode == "one":
         case["loss"] = [draw(st.integers(0, max(0, nsegs - 1)))]
